@@ -195,6 +195,17 @@ def scenario(n, fail, point, attached, batched, second=None, history=None):
             except BaseException as e:
                 out["after"] = (type(e).__name__, loop.time() - t0)
             out["after_wrote"] = len([1 for d, _ in w.wire_log if d == "h2n"]) - wire_n
+            if point == "resetting" and fail in ("silent", "silent_xoff") and w.ezsp._gw is not None:
+                # the reset against the silent NCP has timed out; the NCP comes back and the host tries the reset again on the same
+                # connection: a request like the first one - RST goes out, the acknowledgement completes it
+                w.ncp.silent = False
+                wire_n = len([1 for d, _ in w.wire_log if d == "h2n"])
+                t0 = loop.time()
+                try:
+                    await asyncio.wait_for(w.ezsp.reset(), 60)
+                    out["retry_reset"] = ("ok", loop.time() - t0, len([1 for d, _ in w.wire_log if d == "h2n"]) - wire_n)
+                except BaseException as e:  # noqa: BLE001
+                    out["retry_reset"] = (type(e).__name__, loop.time() - t0, len([1 for d, _ in w.wire_log if d == "h2n"]) - wire_n)
             return True
 
         res = w.run(go(), max_time=600.0, max_steps=20000)
@@ -221,6 +232,10 @@ def oracle(fail, point, attached, o, second=None):
         r = o["results"].get("reset")
         if r is None or r[0] == "ok":
             return f"reset against a silent NCP did not raise: {r}"
+        rr = o.get("retry_reset")
+        if rr is not None and rr[0] != "ok":
+            return (f"after a reset that timed out against a silent NCP, a new reset on the same connection - the NCP answering again - did not complete: "
+                    f"{rr[0]} after {rr[1]:.1f}s, {rr[2]} chunk(s) written")
         return None
     if attached:
         if reqs != 1:
